@@ -31,6 +31,7 @@ type gen struct {
 	curPkg     *Pkg
 	curTypes   []*TypeDecl
 	curEarlier []*Pkg
+	inXTest    bool // generating the external test package: the own package is an import
 }
 
 func (g *gen) chance(label string, pct int) bool {
@@ -398,6 +399,26 @@ func (g *gen) genPkg(pkg *Pkg, earlier []*Pkg) {
 	pkg.Files = files
 	// methods must be declared in the same package as their type but may sit in any file: fine.
 	_ = funcs
+	// ---- external test package (package <name>_test): sees this package as an import
+	if g.o.XTest && g.chance("hasXTest", 35) {
+		xf := &File{Name: "ext_test.go", Kind: FileXTest, Pkg: pkg, Aliases: map[*Pkg]string{}}
+		for _, f := range files {
+			for k, v := range f.Aliases {
+				xf.Aliases[k] = v
+			}
+			break
+		}
+		g.inXTest = true
+		g.cur = nil
+		seen := append(append([]*Pkg{}, earlier...), pkg)
+		nx := rapid.IntRange(1, 2).Draw(t, "nxfuncs")
+		for i := 0; i < nx; i++ {
+			fd := g.genFunc(pkg, nil, fmt.Sprintf("X%d", i), nil, seen)
+			xf.Decls = append(xf.Decls, fd)
+		}
+		g.inXTest = false
+		pkg.Files = append(pkg.Files, xf)
+	}
 }
 
 func (g *gen) add(decls []Decl, d Decl) []Decl {
@@ -674,10 +695,10 @@ func (g *gen) genFunc(pkg *Pkg, recvType *TypeDecl, name string, own []*TypeDecl
 		sc.vars = append(sc.vars, fd.Recv)
 		sc.recv = fd.Recv
 	}
-	if g.has("tonl") && g.chance("fnTestOnly", 35) {
+	if !g.inXTest && g.has("tonl") && g.chance("fnTestOnly", 35) {
 		fd.TestOnly = true
 	}
-	if g.has("pkgo") && g.chance("fnPkgOnly", 35) {
+	if !g.inXTest && g.has("pkgo") && g.chance("fnPkgOnly", 35) {
 		fd.PackageOnly = g.allowLists()
 	}
 	fd.Body = g.genBody(sc, pkg, own, earlier, 0, true)
@@ -928,7 +949,7 @@ func (g *gen) callFamily(sc *scope, pkg *Pkg, td *TypeDecl, own []*TypeDecl, ear
 		}
 		if fd.Recv == nil {
 			fns = append(fns, fd)
-		} else if fd.Recv.Ref.Type.Exported() || fd.Pkg == pkg {
+		} else if fd.Recv.Ref.Type.Exported() || (fd.Pkg == pkg && !g.inXTest) {
 			ms = append(ms, fd)
 		}
 	}
